@@ -3,6 +3,7 @@ package main
 import (
 	"encoding/hex"
 	"fmt"
+	"io"
 	"strconv"
 	"strings"
 	"time"
@@ -190,3 +191,8 @@ func decMItems(args []string) ([]mItem, []string) {
 	}
 	return o, args[1+n:]
 }
+
+// scanLines is the package's line scanner (set when built with the verif hooks)
+var scanLines func(r io.Reader) ([][]byte, error)
+
+func timeDur(ns int64) time.Duration { return time.Duration(ns) }
